@@ -1007,6 +1007,17 @@ class Table(Vector):
 			raise ValueError(f"Column count mismatch: {len(self.cols())} != {len(other)}")
 		return self._named_like_self(tuple(x << y for x, y in zip(self.cols(), other, strict=True)))
 
+	def __rlshift__(self, other):
+		""" other << table (other is not a Vector): the items of other, one per column, come before the table's rows
+		(without this, Vector.__rlshift__ would splice the column vectors themselves into a flat vector)
+		"""
+		if not isinstance(other, Iterable) or isinstance(other, (str, bytes, bytearray)):
+			raise SerifTypeError("Cannot prepend a scalar to a table; give one item (or sequence of cells) per column.")
+		items = list(other)
+		if len(self.cols()) != len(items):
+			raise ValueError(f"Column count mismatch: {len(self.cols())} != {len(items)}")
+		return self._named_like_self(tuple(y << x for x, y in zip(self.cols(), items, strict=True)))
+
 	def _named_like_self(self, new_cols):
 		"""A table of new_cols (fresh vectors, one per column of self) under self's column names."""
 		for orig_col, new_col in zip(self.cols(), new_cols):
